@@ -69,7 +69,23 @@ def gen_cases(ctx, tier):
     res = ctx.tlc("Quadratics", TIERS[tier]["cases"], workers=4, timeout=1500, json_out=cases, label="cases")
     if res.json_count < 50:
         raise vlib.Infra("too few cases printed by Quadratics.tla")
-    return cases, res.json_count
+    # the line-search family on both sides of every acceptance boundary of the strong Wolfe conditions
+    wolfe = ctx.path("optim-wolfe-%s.ndjson" % tier)
+    res2 = ctx.tlc("WolfeCases", "WolfeCases.cfg", workers=2, timeout=600, json_out=wolfe, label="wolfe-cases")
+    routes = collections.Counter()
+    with open(cases, "a") as f, open(wolfe) as g:
+        for line in g:
+            c = json.loads(line)
+            routes[(c["form"], tuple(c["classes"][:2]))] += 1
+            f.write(line)
+    # vacuity: the boundary situations the family exists for are really among the printed cases
+    need = [("mono", ("weakonly",)), ("mono", ("short", "weakonly")), ("mono", ("short", "wolfe")), ("mono", ("noarmijo",)),
+            ("mono", ("wolfe",)), ("window", ("noarmijo", "noarmijo")), ("window", ("noarmijo", "wolfe"))]
+    for form, prefix in need:
+        if not any(k[0] == form and k[1][:len(prefix)] == prefix for k in routes):
+            raise vlib.Infra("WolfeCases: no %s case whose trial steps start with %s" % (form, prefix))
+    ctx.extra["wolfe_cases"] = {"%s:%s" % (k[0], ">".join(k[1])): v for k, v in sorted(routes.items())}
+    return cases, res.json_count + res2.json_count
 
 
 def drive(ctx, binary, cases, tag, env=None):
